@@ -345,10 +345,10 @@ open SurfProofs.Utf8 in
 /-- Part A over numbers: on a row of Table 3-7 the arithmetic of `utf8_decode` yields a scalar value (so the
     debug assertion of `from_u32_unchecked` holds), whose standard encoding is the row -/
 theorem table_decode_nat (mode : Nat) (l : List Nat) (h : Table37 mode l) :
-    ∃ c, SurfModel.Payload.utf8Decode l = .ok c ∧ Scalar c ∧ SurfModel.Vt.utf8 c = l := by
-  have hs : ∀ c, Scalar c → SurfModel.Payload.isScalar c = true := by
+    ∃ c, SurfModel.Payload.utf8Decode l = .ok c ∧ SurfProofs.Utf8.Scalar c ∧ SurfModel.Vt.utf8 c = l := by
+  have hs : ∀ c, SurfProofs.Utf8.Scalar c → SurfModel.Payload.isScalar c = true := by
     intro c hc
-    unfold Scalar at hc
+    unfold SurfProofs.Utf8.Scalar at hc
     simp [SurfModel.Payload.isScalar]
     omega
   match l, h with
@@ -357,28 +357,28 @@ theorem table_decode_nat (mode : Nat) (l : List Nat) (h : Table37 mode l) :
     have h7 : a ≤ 0x7F := by
       unfold OneByte at h
       split at h <;> omega
-    have hsc : Scalar (a % 128) := by unfold Scalar; omega
+    have hsc : SurfProofs.Utf8.Scalar (a % 128) := by unfold SurfProofs.Utf8.Scalar; omega
     refine ⟨a % 128, by simp [SurfModel.Payload.utf8Decode, hs _ hsc], hsc, ?_⟩
     unfold SurfModel.Vt.utf8
     rw [if_pos (by omega)]
     simp; omega
   | [a, b], h =>
     simp only [Table37, Cont] at h
-    have hsc : Scalar (a % 32 * 64 + b % 64) := by unfold Scalar; omega
+    have hsc : SurfProofs.Utf8.Scalar (a % 32 * 64 + b % 64) := by unfold SurfProofs.Utf8.Scalar; omega
     refine ⟨_, by simp [SurfModel.Payload.utf8Decode, hs _ hsc], hsc, ?_⟩
     unfold SurfModel.Vt.utf8
     rw [if_neg (by omega), if_pos (by omega)]
     simp; omega
   | [a, b, c], h =>
     simp only [Table37, Cont] at h
-    have hsc : Scalar ((a % 16 * 64 + b % 64) * 64 + c % 64) := by unfold Scalar; omega
+    have hsc : SurfProofs.Utf8.Scalar ((a % 16 * 64 + b % 64) * 64 + c % 64) := by unfold SurfProofs.Utf8.Scalar; omega
     refine ⟨_, by simp [SurfModel.Payload.utf8Decode, hs _ hsc], hsc, ?_⟩
     unfold SurfModel.Vt.utf8
     rw [if_neg (by omega), if_neg (by omega), if_pos (by omega)]
     simp; omega
   | [a, b, c, d], h =>
     simp only [Table37, Cont] at h
-    have hsc : Scalar (((a % 8 * 64 + b % 64) * 64 + c % 64) * 64 + d % 64) := by unfold Scalar; omega
+    have hsc : SurfProofs.Utf8.Scalar (((a % 8 * 64 + b % 64) * 64 + c % 64) * 64 + d % 64) := by unfold SurfProofs.Utf8.Scalar; omega
     refine ⟨_, by simp [SurfModel.Payload.utf8Decode, hs _ hsc], hsc, ?_⟩
     unfold SurfModel.Vt.utf8
     rw [if_neg (by omega), if_neg (by omega), if_neg (by omega)]
